@@ -151,6 +151,7 @@ class MementoFunction(MementoFunctionBase):
 
     explicit_version = None  # type: Optional[str]
     _calculated_version = None  # type: Optional[str]
+    _cloned_from = None  # type: Optional[MementoFunctionType]
 
     def version(self) -> str:
         """Version of this function, usually computed using the code hash and dependencies"""
@@ -340,7 +341,7 @@ class MementoFunction(MementoFunctionBase):
         version_salt: str = None,
     ) -> MementoFunctionType:
         """Re-constructs a clone of this function, modifying one or more attributes"""
-        return MementoFunction(
+        clone = MementoFunction(
             fn=fn or self.fn,
             src_fn=src_fn or self.src_fn,
             cluster_name=cluster_name or self.cluster_name,
@@ -356,6 +357,11 @@ class MementoFunction(MementoFunctionBase):
             version_salt=version_salt or self._constructor_provided_version_salt,
             register_fn=False,
         )
+        # The clone carries the version computed for this function as if it were explicit.
+        # Remember where it came from so that dependency validation still applies to calls
+        # made through the clone.
+        clone._cloned_from = self._cloned_from or self
+        return clone
 
     def call(self, *args, **kwargs):
         self._validate_dependency()
@@ -569,6 +575,9 @@ class MementoFunction(MementoFunctionBase):
             frame.memento.invocation_metadata.fn_reference_with_args.fn_reference
         )
         caller = cast(MementoFunctionType, caller_ref.memento_fn)
+        # A modifier clone (partial, force_local, with_context_args, ...) pins the computed
+        # version; validate against the function it was cloned from.
+        caller = getattr(caller, "_cloned_from", None) or caller
         if caller.explicit_version is not None:
             # Caller has declared version explicitly, so there is no need to worry that
             # dependencies were not detected properly. Carry on.
